@@ -607,6 +607,21 @@ class C04(HistProp):
                           ['vec', ['vec', e, 4], 4], ['list', ['vec', e, 4], 8]])
             ops, _ = g.ops(t, g.zero(t), r.choice([1, 2, 4, 8]))
             out.append(show(['histd', t] + ops))
+        # unions that list the same type at several selectors: changes between them, with equal and different values
+        for _ in range(self.n(tier) // 8):
+            a = r.choice(['u16', 'u8', ['list', 'u8', 4], ['cont', 'u8', 'u16'], ['Bv', 4], ['bl', 9]])
+            b = r.choice(['u8', 'u64', ['vec', 'u16', 2]])
+            opts = r.choice([[a, b, a], [a, a], [b, a, a, b], ['none', a, b, a]])
+            u = ['union'] + opts
+            first = opts.index(a)
+            v0 = ['u', first, g.val(a, 4)]
+            ops = []
+            for _ in range(r.choice([2, 4, 8])):
+                sel = r.randrange(len(opts))
+                ops.append(['chg', sel, 'none' if opts[sel] == 'none' else (v0[2] if opts[sel] == a and r.random() < 0.4 else g.val(opts[sel], 4))])
+            out.append(show(['hist', u, v0] + ops))
+            if r.random() < 0.5:
+                out.append(show(['hist', ['cont', 'u8', u], ['s', '1', v0], ['set', 1, ['u', len(opts) - 1, g.val(opts[-1], 4)]], ['set', 1, v0]]))
         for _ in range(self.n(tier) // 6):
             u = ['union'] + (['none'] if r.random() < 0.5 else []) + [r.choice([['list', 'u16', 5], ['cont', 'u8', ['list', 'u8', 3]], ['bl', 12]])]
             uv = ['u', len(u) - 2, g.val(u[-1], 4)]
@@ -1813,6 +1828,21 @@ class StoreProp(Prop):
                 bv = 'b' + ''.join(r.choice('01') for _ in range(ln))
                 t, v = r.choice([(bl, bv), (['cont', 'u8', bl, 'u16'], ['s', '1', bv, '2']),
                                  (['list', bl, 3], ['s', bv, 'b1']), (['vec', ['cont', bl], 2], ['s', ['s', bv], ['s', 'b']])])
+            elif k % 10 in (6, 7):
+                if k % 10 == 6:
+                    # packed lists with zero elements at the end (pops that change nothing in the chunk), snapshots in between
+                    e = r.choice(['u64', 'u16', 'u8', 'bool', 'u128'])
+                    per = 32 // UINT_W.get(e, 1)
+                    ln = per * r.choice([0, 1, 2]) + r.choice([2, 3, per - 1, per])
+                    vals = [g.val(e, 1) for _ in range(ln)]
+                    for j in range(r.randint(1, min(ln, 4))):
+                        vals[-1 - j] = '0'
+                    inner, iv = ['list', e, max(ln + 3, r.choice([per * 4, 1000]))], ['s'] + vals
+                else:
+                    # bit vectors (fixed-size, but mutable views), alone and as fields: copies must be independent
+                    nb = r.choice([3, 8, 200, 256, 300, 513])
+                    inner, iv = ['bv', nb], g.bits(nb)
+                t, v = r.choice([(inner, iv), (['cont', 'u8', inner, 'u16'], ['s', '1', iv, '2']), (['vec', ['cont', inner], 2], ['s', ['s', iv], ['s', iv]])])
             elif k % 10 == 8:
                 # unions whose selected option is a mutable composite, nested in containers / lists / unions: the value
                 # view of the union is one more link in the chain
